@@ -897,12 +897,27 @@ func (r *renderer) body(items []*node, depth int) {
 	}
 }
 
+// topPos: where a top-level item starts in the rendered text
+type topPos struct {
+	Off, Line int
+	Block     bool
+}
+
 func render(items []*node, st style) string {
+	s, _ := renderTop(items, st)
+	return s
+}
+
+func renderTop(items []*node, st style) (string, []topPos) {
 	r := &renderer{line: 1, st: st}
 	if st.BOM {
 		r.w("\ufeff")
 	}
-	r.body(items, 0)
+	var tops []topPos
+	for i := range items {
+		tops = append(tops, topPos{r.b.Len(), r.line, items[i].Kind == "block"})
+		r.body(items[i:i+1], 0)
+	}
 	s := r.b.String()
 	if st.NoEOF && strings.HasSuffix(s, st.NL) {
 		last := lastReal(items)
@@ -912,7 +927,7 @@ func render(items []*node, st style) string {
 			s = strings.TrimSuffix(s, st.NL)
 		}
 	}
-	return s
+	return s, tops
 }
 
 func lastReal(items []*node) *node {
